@@ -73,7 +73,7 @@ func TestC17(t *testing.T) {
 								}
 								// launch: the first launch of a fresh configuration; a second client built from
 								// the same *ClientConfig; the same client started again after a failed runner creation
-								for _, how := range []string{"first", "reuse", "retry"} {
+								for _, how := range []string{"first", "reuse", "retry", "cmd"} {
 									if how != "first" && len(sub) == 2 {
 										continue
 									}
@@ -198,7 +198,9 @@ func TestC17(t *testing.T) {
 		if c.Host.Group != "" && eff["PLUGIN_UNIX_SOCKET_GROUP"] != c.Host.Group {
 			bad("socket group %q, configured %q", eff["PLUGIN_UNIX_SOCKET_GROUP"], c.Host.Group)
 		}
-		if eff["PLUGIN_UNIX_SOCKET_DIR"] != r.SocketDir || r.SocketDir == "" {
+		cmdLaunch := strings.Contains(c.Name, "launch=cmd ")
+		if !cmdLaunch && (eff["PLUGIN_UNIX_SOCKET_DIR"] != r.SocketDir || r.SocketDir == "") {
+			// (a command launch creates no per-plugin socket directory)
 			bad("socket dir %q, the client's is %q", eff["PLUGIN_UNIX_SOCKET_DIR"], r.SocketDir)
 		}
 		if c.Host.SkipHostEnv {
@@ -210,8 +212,11 @@ func TestC17(t *testing.T) {
 		} else if eff["VERIF_HOST_MARKER"] != "present" {
 			bad("host environment not passed although SkipHostEnv is off")
 		}
-		if !r.StdinIsHost {
+		if !r.StdinIsHost && !cmdLaunch { // observed at the RunnerFunc seam only
 			bad("command's stdin is not the host's stdin")
+		}
+		if e, _ := opErr(r, "env"); e != "" {
+			bad("environment of the launched command could not be observed: %s", e)
 		}
 		if len(out.Samples) < 3 && i%601 == 0 {
 			out.Samples = append(out.Samples, map[string]any{"cell": c.Name, "effective_env_names": keysOfS(eff)})
